@@ -75,6 +75,38 @@ def failure_mode(before, after):
     return None
 
 
+def _template(msg):
+    """Message of a Python exception with every program-specific part removed (quoted names,
+    callable names, numbers): a finite vocabulary such as `got-an-unexpected-keyword-argument`."""
+    import re
+    msg = re.sub(r"'[^']*'|\"[^\"]*\"", "", msg)
+    msg = re.sub(r"[\w.]+\(\)", "", msg)
+    msg = msg.split(". Did you mean")[0].split(" Did you")[0]
+    words = [w for w in re.findall(r"[A-Za-z]+", msg)]
+    return "-".join(words[:7]).lower() or "no-message"
+
+
+def failure_template(before, after):
+    """Exception type + message template of the first behavioural difference ('' if not an exception)."""
+    for (rc0, out0, err0), (rc1, out1, err1) in zip(before, after):
+        if (rc0, out0) == (rc1, out1):
+            continue
+        if rc1 == "timeout":
+            return ""
+        if rc1 != 0:
+            if err1 and ":" in err1:
+                return _template(err1.split(":", 1)[1])
+            return ""
+        for a, b in zip(out0.splitlines(), out1.splitlines()):
+            if a != b:
+                if " raised " in b and " raised " not in a:
+                    rest = b.split(" raised ", 1)[1].split(" ", 1)
+                    return _template(rest[1] if len(rest) > 1 else "")
+                return ""
+        return ""
+    return ""
+
+
 class _Proxy:
     def __init__(self, res, violation):
         self._res, self.violation = res, violation
@@ -122,6 +154,11 @@ def judge(case, request, res, key_prefix, features="", detail=None, coarse=False
             # labelled hostile class: the finding is the class itself, whatever the symptom
             kw["symptom_key"] = key
             key = f"{key_prefix}|{features}"
+            if os.environ.get("VERIF_HOSTILE_SYMPTOM"):
+                sc = kw.get("symptom_class")
+                if not sc and kw["symptom_key"].startswith(key_prefix + "|") and kw["symptom_key"].endswith("|" + features):
+                    sc = kw["symptom_key"][len(key_prefix) + 1:-len(features) - 1]
+                key += "|" + (sc or "other")
         _v(key, what, **kw)
     res = _Proxy(res, violation)
     before_tree = treesnap.snap(case.root)
@@ -178,6 +215,9 @@ def judge(case, request, res, key_prefix, features="", detail=None, coarse=False
         if fm:
             changed = [p for p, _ in treesnap.diff(before_tree, after_tree)]
             fm = fm.replace("call-raises:", "raises:")
+            sc = fm
+            if fm.startswith("raises:"):
+                sc = fm + ":" + failure_template(case.baseline, after)
             if coarse:
                 fm = "behaviour"
             if classify and not coarse:
@@ -185,7 +225,7 @@ def judge(case, request, res, key_prefix, features="", detail=None, coarse=False
                 features = features + "|" + cause
                 if "unexplained" not in cause and "n/a" not in cause:
                     fm = "behaviour"   # the cause names the mechanism; the symptom is secondary
-            res.violation(f"{key_prefix}|{fm}|{features}", f"behaviour changed ({fm})", changed_files=changed,
+            res.violation(f"{key_prefix}|{fm}|{features}", f"behaviour changed ({fm})", changed_files=changed, symptom_class=sc,
                           new_text={p: pyrun.read_project(case.root).get(p, "<gone>")[:3000] for p in changed[:2]},
                           after=[a[2] or a[1][-300:] for a in after], first_diff=_first_diff(case.baseline, after),
                           diff=_tree_diff(before_tree, case.root))
